@@ -106,7 +106,7 @@ Has(t, kind) ==
 ----------------------------------------------------------------------------
 (* annotation lines *)
 
-Kinds == {"type", "type2", "field", "fieldvis", "fieldpub", "fieldpriv", "param", "paramopt", "paramvar", "return", "return2", "alias", "vararg", "overload",
+Kinds == {"type", "type2", "field", "fieldvis", "fieldpub", "fieldpriv", "param", "paramopt", "paramvar", "return", "return2", "return2opt", "alias", "vararg", "overload",
           "class", "class1", "class2", "generic", "generic2", "enum", "enumstart", "enumend"}
 
 Comment == <<"@", "note">>     \* optional trailing  @comment
@@ -125,6 +125,8 @@ LineToks(kd, t, t2) ==
       [] kd = "paramvar" -> <<"param", "...">> \o Toks(t)
       [] kd = "return"   -> <<"return">> \o Toks(t)
       [] kd = "return2"  -> <<"return">> \o Toks(t) \o <<",">> \o Toks(t2)
+      \* the first of two results marked optional: the marker is not part of the type, and the second result still counts
+      [] kd = "return2opt" -> <<"return">> \o Toks(t) \o <<"?", ",">> \o Toks(t2)
       [] kd = "alias"    -> <<"alias", "AliasN">> \o Toks(t)
       [] kd = "vararg"   -> <<"vararg">> \o Toks(t)
       [] kd = "overload" -> <<"overload">> \o Toks(t)
@@ -148,7 +150,7 @@ Visibility(kd) == CASE kd = "fieldvis" -> "protected" [] kd = "fieldpriv" -> "pr
                     [] kd \in {"field", "fieldpub"} -> "public" [] OTHER -> ""
 
 Typed == {"type", "field", "fieldvis", "fieldpub", "fieldpriv", "param", "paramopt", "paramvar", "return", "alias", "vararg"}
-Typed2 == {"type2", "return2"}
+Typed2 == {"type2", "return2", "return2opt"}
 Untyped == {"class", "class1", "class2", "generic", "generic2", "enum", "enumstart", "enumend"}
 
 VARIABLES kind, ty, ty2, cmt
